@@ -84,6 +84,46 @@ WHAT = {
           "payload sizes within 3 bytes below a capacity the read buffer has or grows to exactly (509..512, 2045..2048, ...): the next read gets an empty slice and reports EOF"),
  "C20b": ("slot_sequencer.go: Push adds the slot length to the byte counter whenever err == nil (also for a refused duplicate)",
           "pushing a sequence number that is already parked"),
+ "C01c": ("file.go: cancelReads/cancelWrites invoke the handler with ErrCancelled first and remove the interest afterwards",
+          "the cancellation callback re-issues the same direction and that operation cannot complete inline: the trailing removal takes the interest of the re-issued operation, which never completes"),
+ "C02c": ("file.go: asyncWrite initialises the write reactor only in the inline branch (third variant: the dispatch-limit branch parks the write with the previous write's buffer, All flag and callback)",
+          "a write issued inside 32 nested immediate completions whose buffer differs from the previous write's: the previous buffer goes out twice, the new one never"),
+ "C03c": ("internal/poll_linux.go: the rollback of a failed epoll_ctl in setRW clears the slot's events instead of restoring the previous ones",
+          "an operation of the other direction already deferred on the slot AND the new registration fails (descriptor closed underneath): the waiting operation stays counted but can no longer be cancelled or closed; Pending() never returns to 0"),
+ "C04c": ("timer.go: ScheduleOnce's guard `state == ready` became `state != scheduled` (a closed timer takes the scheduling path)",
+          "ScheduleOnce with a non-positive delay on a closed timer runs the callback and returns nil; a repeating callback that closes its timer and opens a new one (same descriptor number) re-arms the new timer's descriptor under the old slot"),
+ "C05c": ("internal/poll_linux.go: DelWrite decrements the pending counter with a plain `p.pending--` (every other access is atomic)",
+          "a Post from another goroutine lands between the load and the store while the loop disarms a write interest: Pending() ends too low for good"),
+ "C06c": ("codec/websocket/stream.go: blocking NextMessage latches the message type with `if readBytes == 0`",
+          "a fragmented message whose leading fragments are empty, read through the blocking NextMessage: the type comes from a continuation frame"),
+ "C07c": ("codec/websocket/frame.go: setPayloadLength clears the 7 length bits only in the <=125 branch",
+          "a Frame reused without Reset: SetPayload with 126..65535 bytes after a payload whose marker was odd (an odd length <=125 or any 64-bit-class length): marker 127 with 2 length bytes"),
+ "C08c": ("codec/websocket/stream.go: canRead rewritten as a negative list that forgets StateCloseAcked",
+          "local Close, the peer's Close is read (close acknowledged), one more read: delivers later data / fabricates a 1006 close / moves to Terminated instead of reporting end of stream"),
+ "C09c": ("byte_buffer.go: PrepareRead computes the missing amount as n - ri instead of n - ReadLen() (forgets the save area)",
+          "saved and not yet discarded bytes AND a PrepareRead that needs to commit: returns nil having committed too little"),
+ "C10c": ("bip_buffer.go: Commit's wrapped branch adds n instead of the clamped amount",
+          "the claim lies in the wrapped region AND Commit(n) is larger than the claim: never-committed bytes become visible, the wrapped region overlaps the head chunk"),
+ "C11c": ("bytes/mirrored_buffer.go: the constructor unlinks the backing file only after both remaps succeeded",
+          "a constructor failure after the file exists (the kernel refuses the 2*size reservation, size >= 2^46): a /dev/shm file is left behind"),
+ "C12c": ("multicast/peer.go: AsyncRead records the buffer only where asyncReadNow defers on would-block",
+          "more than 32 datagrams queued, reads re-armed from the completion callback with a different buffer each: the read issued at the dispatch limit fills a stale (or nil) buffer"),
+ "C13c": ("async_adapter.go: Close goes through the owner only if it is a net.Conn (before: any io.Closer)",
+          "an adapter over a closable non-net.Conn owner (*os.File): adapter.Close raw-closes the number, a new object reuses it, the owner's Close closes the new object's descriptor"),
+ "C14c": ("multicast/peer.go: the inline-completion wrapper of UDPPeer.AsyncWrite returns before `Dispatched--` when the write failed",
+          "a multicast-peer write that completes at once with an error (oversized datagram): every such write leaves IO.Dispatched one higher for good"),
+ "C15c": ("codec/websocket/rfc6455.go + stream.go: IsControl() is `op & 0x8 != 0` and handleControlFrame's default branch no longer reports an error",
+          "a frame with reserved opcode 0xB..0xF, FIN set, payload <=125: accepted as a no-op control frame by all four read APIs"),
+ "C16c": ("codec/websocket/stream.go: AsyncClose calls asyncFlush directly (bypasses the flush serialisation)",
+          "a transport write of a frame is still in flight (partial-write transport) when AsyncClose is called: a second transport write starts over the same buffer region"),
+ "C17c": ("async_adapter.go: a short write re-arms with the size of the last piece instead of the cumulative offset",
+          "one AsyncWriteAll written in three or more pieces through an io.ReadWriter that reports short writes: already-sent bytes are repeated on the wire, or the write never finishes"),
+ "C18c": ("codec/websocket/stream.go: the Sec-WebSocket-Accept comparison became strings.EqualFold",
+          "a 101 response whose accept value equals the right one except for letter case is accepted"),
+ "C19c": ("codec/frame/frame.go: HeaderLen + payloadLen is computed in uint32 before the limit check",
+          "a declared length of 0xfffffffc..0xffffffff wraps to 0..3: the limit check passes and slicing panics"),
+ "C20c": ("sequenced_slots.go: the slot-capacity check runs only on the append path of Push",
+          "the container holds exactly maxSlots slots AND the pushed number sorts below the largest parked one: accepted beyond capacity"),
 }
 
 STRENGTH = {
@@ -99,6 +139,20 @@ STRENGTH = {
  "C08b": "would have been missed: four back-to-back pairs of asynchronous calls issued while the transport still holds the first write",
  "C18b": "would have been missed: the dropped earlier session now leaves half a frame unread in the stream",
  "C19b": "would have been missed: every payload size 0..1100 and around each capacity step is read back once",
+ "C02c": "reported only as a crash of the harness (exit 2, no VIOLATION line): a panic raised by the library outside a guarded region is now a violation of the property being checked; chains of 33/34/70 reads or writes with distinct buffers issued from the completion callback (crossing the dispatch limit) added",
+ "C03c": "MISSED at first: new action `descriptor closed underneath while the other direction is already waiting in the poller` (the number is re-occupied by a placeholder), after which Cancel and Close stay available on that object",
+ "C04c": "caught as it stood (non-positive delay on a closed timer); handler behaviour `close itself + create and schedule a new timer` (descriptor number reused inside the callback) added anyway",
+ "C05c": "MISSED at first: the loop-side activity between polls now also arms/cancels a FIFO write and lets a write interest be disarmed inside Poll (before: only a FIFO read)",
+ "C07c": "MISSED at first: round trips on a Frame that carried one or two earlier payloads of every length class (SetPayload without Reset)",
+ "C11c": "MISSED at first: 10 constructions with invalid and huge sizes (2^36..2^62; refused by the kernel at the address-space reservation, or granted and destroyed) checked against the descriptor census, /dev/shm and the mappings",
+ "C12c": "caught as it stood (the first read issued at the limit on a fresh peer reports EOF); chains of 34/40/70 reads over queued datagrams with a ring of 2/4/3 buffers added, which also sees the stale-buffer form",
+ "C13c": "MISSED at first: object kind `adapter over an *os.File` (a closable owner that is not a net.Conn) in the close family",
+ "C14c": "MISSED at first: five operation kinds that complete at once with an error (end of stream on a conn and a FIFO, write on a reset conn, oversized datagram on a packet conn and a multicast peer) in the cycles: 4368 cycles instead of 1463",
+ "C16c": "MISSED at first: as a deviation a deferred transport write stays in flight while the next asynchronous operation starts (before: the transport completed every write before the next operation)",
+ "C17c": "MISSED at first: the harness set SO_SNDBUF on a descriptor it had already closed, so the `large` write never was partial; second transport behind the adapter: the raw descriptor with a minimal send buffer, whose Write is short (a 48 KB message goes out in a dozen pieces)",
+ "C18c": "MISSED at first: near misses of the accept value (case-swapped, lower-cased, truncated, suffixed) among the response variants",
+ "C19c": "caught as it stood (0xffffffff was among the prefixes); the arithmetic boundaries around the limit, 2^31 and 2^32-5..2^32-1 added",
+
 }
 
 
